@@ -58,7 +58,9 @@ func IDs() []string {
 type Failure struct {
 	// Sig is the classifier's signature ("" = unclassified).  A failure is a
 	// known finding only if KNOWN_FINDINGS.txt lists "open: property=<id> sig=<Sig>".
-	Sig      string          `json:"sig"`
+	Sig string `json:"sig"`
+	// Bucket is a coarse diagnostic grouping (not used for known-finding matching).
+	Bucket   string          `json:"bucket,omitempty"`
 	Kind     string          `json:"kind"` // mismatch | panic | hang | crash
 	Case     json.RawMessage `json:"case"`
 	Expected string          `json:"expected,omitempty"`
@@ -74,6 +76,7 @@ type Result struct {
 	Samples      []any            `json:"samples"`
 	Failures     []Failure        `json:"failures"`
 	FailureCount map[string]int64 `json:"failure_count"` // by sig ("" for unclassified)
+	BucketCount  map[string]int64 `json:"bucket_count"`
 	Exhaustive   bool             `json:"exhaustive"`
 	Notes        []string         `json:"notes"`
 	HangIdx      int64            `json:"hang_idx"` // -1 = none
@@ -81,7 +84,7 @@ type Result struct {
 }
 
 func newResult() *Result {
-	return &Result{Stats: map[string]int64{}, FailureCount: map[string]int64{}, Exhaustive: true, HangIdx: -1, Bounds: map[string]any{}}
+	return &Result{Stats: map[string]int64{}, FailureCount: map[string]int64{}, BucketCount: map[string]int64{}, Exhaustive: true, HangIdx: -1, Bounds: map[string]any{}}
 }
 
 type curCase struct {
@@ -187,8 +190,12 @@ func (c *Ctx) Fail(f Failure) {
 	c.mu.Lock()
 	defer c.mu.Unlock()
 	c.res.FailureCount[f.Sig]++
-	if c.keepSig[f.Sig] < c.maxKeep {
-		c.keepSig[f.Sig]++
+	k := f.Sig + "\x00" + f.Bucket
+	if f.Bucket != "" {
+		c.res.BucketCount[f.Sig+"/"+f.Bucket]++
+	}
+	if c.keepSig[k] < c.maxKeep {
+		c.keepSig[k]++
 		c.res.Failures = append(c.res.Failures, f)
 	}
 }
@@ -344,8 +351,8 @@ func RunReplay(ch *Check, tier string, file string) int {
 	}()
 	select {
 	case <-done:
-	case <-time.After(60 * time.Second):
-		fmt.Printf("REPLAY property=%s result=HANG (no result after 60 s)\n", ch.ID)
+	case <-time.After(30 * time.Second):
+		fmt.Printf("REPLAY property=%s result=HANG (no result after 30 s)\n", ch.ID)
 		return 1
 	}
 	if len(c.res.Failures) == 0 {
